@@ -1,7 +1,7 @@
 (* Proofs/StateLock.v — C11: lemmas about the concrete critical-section function of the
    harness (Model/StateLock.v part 1) on top of the generic theorems, and the concrete
    configurations used as non-vacuity examples in Props/C11.v. *)
-From Eino Require Import Base.Util Model.StateLock Model.StateLockLTS Proofs.StateLockLTS Proofs.StateLockVal.
+From Eino Require Import Base.Util Model.StateLock Model.StateLockLTS Model.StateLockDrive Proofs.StateLockLTS Proofs.StateLockVal.
 From Coq Require Import Lia.
 Open Scope N_scope.
 
@@ -152,6 +152,11 @@ Proof.
   assert (H2 : in_cs sstate X ex_nolock_mid 0%nat 2 0%nat) by (eexists _, _, _; vm_compute; repeat split; reflexivity).
   destruct (H _ _ ex_nolock_mid_run _ _ _ _ _ H1 H2) as (_ & Hn). discriminate.
 Qed.
+
+(* the log an observer of configuration c would have recorded *)
+Definition items_of_trace (c : config sstate X) : list item :=
+  map (fun e => IEv (mkEv (run_of c (t_inst e)) (n_id (t_node e)) (t_kind e) (N.of_nat (t_obj e))
+                          (t_x e) (t_out e) (s_total (t_seen e)))) (c_trace c).
 
 Definition ex_view (c : config sstate X) :=
   (all_final sstate X c, map (fun e => (t_inst e, n_id (t_node e), kcode (t_kind e))) (c_trace c),
